@@ -143,6 +143,7 @@ def r4_folder_level(ctx):
     checks = [
         (r"^sos_client_storage::traits::Client\w+Storage::delete_folder$", ["remove_folder"], "deleting a folder"),
         (r"^sos_client_storage::traits::ClientAccountStorage::build_search_index$", ["remove_all", "add_folder"], "rebuilding the index"),
+        (r"^sos_client_storage::traits::ClientAccountStorage::upsert_vault_buffer$", ["remove_folder"], "overwriting an existing folder"),
     ]
     for rx, ops, what in checks:
         fns = [f for f in ws.find_fns(rx) if f.crate == "sos_client_storage"]
@@ -162,6 +163,8 @@ def r4_folder_level(ctx):
         # because of another condition such as `apply_event` (merged deletions
         # come with apply_event == false)
         for f in fns:
+            if f.root.endswith("::upsert_vault_buffer"):
+                continue   # the pre-clean is (rightly) conditional on the folder already existing
             for b in f.bodies:
                 live = cfg.live_blocks(b)
                 sites = [i for i, t in idioms.real_calls(b, live) if cname(t) == ops[0] and re.search(r"(SearchIndex|AccountSearch)", t.get("callee") or "")]
